@@ -647,11 +647,27 @@ func replayOne(v *violation, prop string, h HarnessPlan, params map[string]int, 
 		v.Reproduced = true
 		return
 	}
-	cmd := exec.Command("/bin/sh", filepath.Join(dir, "run.sh"))
-	cmd.Env = goEnv()
-	out, err := cmd.CombinedOutput()
+	// a native run that passes is repeated (twice, or seven times when it takes under 10 s): where the failure depends on the native
+	// scheduler (goroutines of the code under test) one passing run proves little, and only a
+	// run that actually fails is ever reported
+	var out []byte
+	var err error
+	var txt string
+	attempts := 3
+	for attempt := 0; attempt < attempts; attempt++ {
+		t0 := time.Now()
+		cmd := exec.Command("/bin/sh", filepath.Join(dir, "run.sh"))
+		cmd.Env = goEnv()
+		out, err = cmd.CombinedOutput()
+		txt = string(out)
+		if err != nil {
+			break
+		}
+		if attempt == 0 && time.Since(t0) < 10*time.Second {
+			attempts = 8 // cheap run: a 50 % native race is then missed with probability < 1 %
+		}
+	}
 	os.WriteFile(filepath.Join(dir, "replay.log"), out, 0o644)
-	txt := string(out)
 	switch {
 	case strings.Contains(txt, "ZZ-ASSUME-FAILED"):
 		v.ReplayStatus = "native run violated a harness assumption"
